@@ -1,7 +1,8 @@
 (* PAR2 Create: what it writes, what it reads, and independence of the current directory and of the
    spelling of its path arguments.
    CP1 create_write_targets          every write call targets <parPath minus ext> ++ ".par2" or ".volII+CC.par2"
-   CP2 create_inputs_untouched       every other path keeps its content, for every fault schedule
+   CP2 create_inputs_untouched       every other path keeps its content, for every fault schedule (the inputs themselves:
+                                     CreateContain.create_input_paths_untouched - an input is never such a target)
    CP3 create_read_targets           every read call targets join(basedir, rel(basedir, abs f)), f an input; no listing
    CP4 create_cwd_spelling_invariant two invocations whose arguments resolve to the same absolute paths return
                                      the same result and issue the same calls (paths resolved, data, outcomes) *)
@@ -479,6 +480,7 @@ Section CreatePaths.
     cbv zeta.
     lazymatch goal with |- context [if ?c then (Err EUsage, st) else _] => destruct c end; [exact Triv|].
     lazymatch goal with |- context [if ?c then (Err EUsage, st) else _] => destruct c end; [exact Triv|].
+    lazymatch goal with |- context [if ?c then (Err EUsage, st) else _] => destruct c end; [exact Triv|].
     clear Triv.
     lazymatch goal with |- context [io_reads ?ps st] =>
       destruct (io_reads_trace ps st) as (tr & Etr & Ftr);
@@ -635,6 +637,7 @@ Section CreatePaths.
     destruct files1 as [|f1 fs1], files2 as [|f2 fs2]; try discriminate Hfiles; [exact Triv|].
     cbv zeta. rewrite <- Hfiles, <- Hpar.
     set (basedir := dir (abs_path cwd1 par1)).
+    destruct (existsb (is_parity_path (abs_path cwd1 par1)) (map (abs_path cwd1) (f1 :: fs1))); [exact Triv|].
     set (rels := map (rel_path basedir) (map (abs_path cwd1) (f1 :: fs1))).
     destruct (existsb _ rels); [exact Triv|].
     lazymatch goal with |- context [if ?c then (Err EUsage, st) else _] => destruct c end; [exact Triv|].
